@@ -4,6 +4,10 @@
   invariants live in Babylon/Future/Lemmas*.lean.
 -/
 import Babylon.Future.Model
+import Babylon.Future.LemmasK
+import Babylon.Future.LemmasH
+import Babylon.Future.LemmasR
+import Babylon.Future.Run
 
 namespace Babylon.Properties.C08
 open Babylon.Future Babylon.Gen.Future Babylon.Core
@@ -42,4 +46,310 @@ theorem gen_orders :
     ordRegLoad.acquires = true ∧ ordRegCasSucc.releases = true ∧ ordRegCasFail.acquires = true ∧
     ordFutureReady.acquires = true ∧ ordCountSub.releases = true ∧ ordCountSub.acquires = true := by decide
 
-end Babylon.Properties.C08
+/-! ## Property theorems
+
+All statements are about every state reachable by `Step` from `Init`: every interleaving of one
+setter (or the `count_down`s of a latch) with any number of threads calling `get`, `wait_for τ` (any
+`int64_t` τ), `on_finish`/`then`, `ready` on copies of the future, any number of times; spurious futex
+wake-ups and spurious weak-CAS failures included; the clock advances arbitrarily.
+
+`NoWrap s` (fewer than 2^31 slow-path waits so far) is needed exactly where a reader relies on the
+READY bit of the futex word: the waiter count in the low 31 bits is never decremented, so 2^31
+`wait_for` calls that time out turn the count into READY (harness mode `wrap` shows it on the real
+code).  The callback theorems and `wait_for = false` need no such hypothesis. -/
+
+abbrev Reach (s : State) : Prop := Reachable Init Step s
+def NoWrap (s : State) : Prop := s.adds < 2 ^ 31
+
+/-- the value storage holds the argument of `set_value` (or nothing yet), and is written at most once -/
+theorem fut_value_once {s : State} (hr : Reach s) :
+    s.constructs ≤ 1 ∧ s.seals ≤ 1 ∧ (s.storage = none ∨ (s.storage = s.setVal ∧ s.setVal.isSome = true)) := by
+  have hS := InvS.reach hr
+  refine ⟨hS.cons_le, Nat.le_trans hS.seals_le hS.cons_le, ?_⟩
+  have := hS.cons_le
+  by_cases h0 : s.constructs = 0
+  · exact .inl (hS.storage_none h0)
+  · exact .inr (hS.storage_some (by omega))
+
+/-- **callbacks, safety**: at every moment a callback has run at most once, never before the value
+was constructed, and what it found in the storage is the value passed to `set_value`. -/
+theorem fut_cb_safe {s : State} (hr : Reach s) (id : Nat) :
+    (s.runs id).length ≤ 1 ∧ ∀ x ∈ s.runs id, x = s.setVal ∧ x.isSome = true ∧ s.storage = x := by
+  have hK := InvK.reach hr
+  have hS := InvS.reach hr
+  constructor
+  · cases hst : s.regStarted id
+    · simp [(hK.fresh id hst).1]
+    · have := hK.started id hst
+      cases ho : s.regOwner id with
+      | none => simp [ho] at this
+      | some t =>
+        cases hh : holds (s.pc t) id
+        · have := hK.tokB id t ho hh; omega
+        · simp [(hK.tokA id t ho hh).1]
+  · intro x hx
+    obtain ⟨h1, h2⟩ := hK.seen id x hx
+    have hc : s.constructs = 1 := by
+      have := hS.cons_le
+      by_cases h0 : s.constructs = 0
+      · rw [hS.storage_none h0] at h2; cases h2
+      · omega
+    obtain ⟨h3, h4⟩ := hS.storage_some hc
+    subst h1
+    exact ⟨h3, h2, rfl⟩
+
+/-- **callbacks, no loss**: once `on_finish(cb)` has returned, `cb` has run or is queued (in the open
+list, or in the list the setter detached and is running) — exactly one of the two. -/
+theorem fut_cb_not_lost {s : State} (hr : Reach s) (id : Nat) (hreg : s.regDone id = true) :
+    (s.runs id).length + (lists s).count id = 1 := by
+  have hK := InvK.reach hr
+  cases hst : s.regStarted id
+  · have := (hK.fresh id hst).2.2.1; rw [hreg] at this; cases this
+  · have := hK.started id hst
+    cases ho : s.regOwner id with
+    | none => simp [ho] at this
+    | some t =>
+      cases hh : holds (s.pc t) id
+      · exact hK.tokB id t ho hh
+      · have := (hK.tokA id t ho hh).2.2; rw [hreg] at this; cases this
+
+/-- **callbacks, exactly once** (`fut_cb_exactly_once`): when both `on_finish(cb)` and `set_value`
+have returned — whichever came first, or concurrently — `cb` has run exactly once and saw the value. -/
+theorem fut_cb_exactly_once {s : State} (hr : Reach s) (id : Nat)
+    (hreg : s.regDone id = true) (hset : s.setDone = true) :
+    s.runs id = [s.setVal] ∧ s.setVal.isSome = true ∧ s.storage = s.setVal := by
+  have hS := InvS.reach hr
+  have h1 := fut_cb_not_lost hr id hreg
+  obtain ⟨hx, _, hdet, _⟩ := hS.done hset
+  have hhead : s.head = none := hS.head_none.mpr (hS.xchg_seal hx)
+  have hl : lists s = [] := by simp [lists, hhead, hdet]
+  rw [hl] at h1
+  have hlen : (s.runs id).length = 1 := by simpa using h1
+  obtain ⟨_, hsafe⟩ := fut_cb_safe hr id
+  match hr' : s.runs id with
+  | [] => simp [hr'] at hlen
+  | [x] =>
+    obtain ⟨h3, h4, h5⟩ := hsafe x (by simp [hr'])
+    subst h3
+    exact ⟨rfl, h4, h5⟩
+  | _ :: _ :: _ => simp [hr'] at hlen
+
+/-- **publication**: every read of the value by a getter or a callback, and every read of a callback
+node by the setter, is ordered after the corresponding write by the release/acquire edges the code has. -/
+theorem fut_publication_hb {s : State} (hr : Reach s) (hnw : NoWrap s) : s.unsync = false :=
+  (InvH.reach hr hnw).unsync
+
+/-- **get** (`fut_get_value`): `get()` returns only after READY was published, and what the caller
+reads is the value passed to `set_value`. -/
+theorem fut_get_value {s : State} (hr : Reach s) (hnw : NoWrap s) (t : Nat) (x : Option Nat)
+    (h : s.result t = some (.got x)) : x = s.setVal ∧ x.isSome = true ∧ s.head = none := by
+  have hS := InvS.reach hr
+  obtain ⟨h1, h2, h3⟩ := (InvR.reach hr hnw).resG t x h
+  have hc : s.constructs = 1 := by
+    have := hS.cons_le
+    by_cases h0 : s.constructs = 0
+    · rw [hS.storage_none h0] at h2; cases h2
+    · omega
+  subst h1
+  exact ⟨(hS.storage_some hc).1, h2, hS.head_none.mpr (hS.xchg_seal h3)⟩
+
+/-- a thread about to return from `get()` has observed READY after the constructor and the seal -/
+theorem fut_get_only_after_ready {s : State} (hr : Reach s) (hnw : NoWrap s) (t : Nat) (h : s.pc t = .gR) :
+    s.xchgDone = true ∧ s.head = none ∧ s.storage = s.setVal ∧ s.setVal.isSome = true := by
+  have hS := InvS.reach hr
+  have hx := (InvF.reach hr hnw).gR t h
+  have hs := hS.xchg_seal hx
+  have hc : s.constructs = 1 := by have := hS.cons_le; have := hS.seals_le; omega
+  exact ⟨hx, hS.head_none.mpr hs, hS.storage_some hc⟩
+
+/-- **no lost wake-up** (`fut_no_lost_wakeup`): a thread asleep in `futex_wait` (no `wake_all` since it
+fell asleep) either sleeps on a word the setter has not exchanged yet, or the setter is just about to
+call `wake_all`.  There is no state with READY published, the setter past its wake, and a sleeper. -/
+theorem fut_no_lost_wakeup {s : State} (hr : Reach s) (hnw : NoWrap s) (t : Nat) (ha : asleepIn s t = true) :
+    s.xchgDone = false ∨ ∃ u d, s.firer = some u ∧ s.pc u = .s3 d := by
+  have hF := InvF.reach hr hnw
+  have hS := InvS.reach hr
+  cases hx : s.xchgDone
+  · exact .inl rfl
+  · right
+    have hc : s.constructs = 1 := by have := hS.xchg_seal hx; have := hS.cons_le; have := hS.seals_le; omega
+    have hf : s.firer ≠ none := fun hn => by have := hS.none_fired hn; omega
+    cases hfu : s.firer with
+    | none => exact absurd hfu hf
+    | some u =>
+      have key : isS3 (s.pc u) = true := by
+        unfold asleepIn at ha
+        split at ha
+        · rename_i e he; exact (hF.wS t e he).2.2 (by simpa using ha) hx u hfu
+        · rename_i w e he; exact (hF.fS t w e he).2.2 (by simpa using ha) hx u hfu
+        · cases ha
+      cases hp : s.pc u <;> simp [hp, isS3] at key
+      exact ⟨u, _, rfl, hp⟩
+
+/-- after `set_value` has returned nobody is asleep -/
+theorem fut_no_sleeper_after_set {s : State} (hr : Reach s) (hnw : NoWrap s) (hd : s.setDone = true) (t : Nat) :
+    asleepIn s t = false := by
+  cases ha : asleepIn s t
+  · rfl
+  · rcases fut_no_lost_wakeup hr hnw t ha with hx | ⟨u, d, hf, hp⟩
+    · have := ((InvS.reach hr).done hd).1; rw [hx] at this; cases this
+    · have := ((InvS.reach hr).done hd).2.2.2 u; rw [hp] at this; cases this
+
+/-- **no deadlock**: once `set_value` has returned every thread that is inside a call can take a step
+(without relying on spurious wake-ups) -/
+theorem fut_no_deadlock {s : State} (hr : Reach s) (hnw : NoWrap s) (hd : s.setDone = true)
+    (addr : Nat → Nat) (t : Nat) (hp : s.pc t ≠ .idle) : (stepThread addr s t {}).isSome = true := by
+  have ha := fut_no_sleeper_after_set hr hnw hd t
+  unfold asleepIn at ha
+  cases hpc : s.pc t <;> simp only [hpc] at ha hp <;> simp only [stepThread, hpc]
+  case idle => exact absurd rfl hp
+  case wS e => simp at ha; simp; omega
+  all_goals (first | (simp; done) | (split <;> first | (simp; done) | (split <;> simp)))
+
+/-- **wait_for = true** (`fut_wait_for_sound`, first half): only if READY was observed, hence after
+the value was constructed and the list sealed. -/
+theorem fut_wait_for_true {s : State} (hr : Reach s) (hnw : NoWrap s) (t : Nat) (b : Bool) (st to n : Nat)
+    (h : s.result t = some (.waited true b st to n)) :
+    s.xchgDone = true ∧ s.head = none ∧ s.storage = s.setVal ∧ s.setVal.isSome = true := by
+  have hS := InvS.reach hr
+  have hx := (InvR.reach hr hnw).resT t b st to n h
+  have hs := hS.xchg_seal hx
+  have hc : s.constructs = 1 := by have := hS.cons_le; have := hS.seals_le; omega
+  exact ⟨hx, hS.head_none.mpr hs, hS.storage_some hc⟩
+
+/-- **wait_for = false** (`fut_wait_for_sound`, second half): only from the slow path, and only if
+the clock value `n` the call read last is at least `start + timeout` (`start` = clock read at entry,
+`timeout = max 0 τ` as passed by `wait_for`), although `until_ns = start + timeout` is computed in
+wrap-around `int64_t`; the only assumption is that the clock reading is below 2^63 ns.  No NoWrap. -/
+theorem fut_wait_for_false {s : State} (hr : Reach s) (t : Nat) (b : Bool) (st to n : Nat)
+    (h : s.result t = some (.waited false b st to n)) :
+    b = true ∧ st ≤ n ∧ n ≤ s.now ∧ (n < 2 ^ 63 → st + to ≤ n) := by
+  obtain ⟨h1, h2, h3, h4⟩ := InvRF.reach hr t b st to n h
+  exact ⟨h1, h3, h2, h4⟩
+
+/-- the timeout handed to `wait_for_slow` is `max(0, τ)`: negative timeouts are clamped to zero -/
+theorem fut_wait_for_clamp (addr : Nat → Nat) (s s' : State) (t : Nat) (tau : Int) (h : Hint) (l : Act)
+    (hp : s.pc t = .f0 tau) (hnr : hasReady s.futex = false) (hst : stepThread addr s t h = some (s', l)) :
+    s'.pc t = .f1 (max 0 tau).toNat := by
+  simp only [stepThread, hp, hnr, timeoutClampLow] at hst
+  simp only [Option.some.injEq, Prod.mk.injEq] at hst
+  obtain ⟨rfl, _⟩ := hst
+  simp
+
+/-- **after set_value**: once READY is published, `get` goes straight to its return, `wait_for(τ)`
+returns `true` for every τ, `ready()` returns `true`, `on_finish` runs the callback inline. -/
+theorem fut_after_set {s : State} (hr : Reach s) (hnw : NoWrap s) (hx : s.xchgDone = true)
+    (addr : Nat → Nat) (t : Nat) (h : Hint) (s' : State) (l : Act) (hst : stepThread addr s t h = some (s', l)) :
+    (s.pc t = .g0 → s'.pc t = .gR) ∧
+    (∀ tau, s.pc t = .f0 tau → s'.pc t = .ret (.waited true false 0 0 0)) ∧
+    (s.pc t = .q0 → s'.pc t = .ret (.ready true)) ∧
+    (∀ id, s.pc t = .r0 id → s'.pc t = .rRun id) := by
+  have hF := InvF.reach hr hnw
+  have hS := InvS.reach hr
+  have hrd : hasReady s.futex = true := by
+    rw [(hF.word1 hx).2]; exact hasReady_ready (by have := (hF.word1 hx).1; unfold NoWrap at hnw; omega)
+  have hh : s.head = none := hS.head_none.mpr (hS.xchg_seal hx)
+  refine ⟨?_, ?_, ?_, ?_⟩
+  · intro hp
+    simp only [stepThread, hp, hrd, if_true, Option.some.injEq, Prod.mk.injEq] at hst
+    obtain ⟨rfl, _⟩ := hst; simp
+  · intro tau hp
+    simp only [stepThread, hp, hrd, if_true, waitForFast, Option.some.injEq, Prod.mk.injEq] at hst
+    obtain ⟨rfl, _⟩ := hst; simp
+  · intro hp
+    simp only [stepThread, hp, hh, Option.some.injEq, Prod.mk.injEq] at hst
+    obtain ⟨rfl, _⟩ := hst; simp
+  · intro id hp
+    simp only [stepThread, hp, hh, Option.some.injEq, Prod.mk.injEq] at hst
+    obtain ⟨rfl, _⟩ := hst; simp
+
+/-- `ready()` returns `true` only after the list was sealed, i.e. after the value was constructed -/
+theorem fut_ready_true {s : State} (hr : Reach s) (hnw : NoWrap s) (t : Nat) (h : s.result t = some (.ready true)) :
+    s.head = none ∧ s.storage = s.setVal ∧ s.setVal.isSome = true := by
+  have hS := InvS.reach hr
+  have hh := (InvR.reach hr hnw).resReady t h
+  have hs := hS.head_none.mp hh
+  have hc : s.constructs = 1 := by have := hS.cons_le; have := hS.seals_le; omega
+  exact ⟨hh, hS.storage_some hc⟩
+
+/-- **latch** (`latch_exact`): the latch's promise is set at most once; it is never ready before the
+count is zero; the `count_down` that brings the count to zero is the (only) thread that enters
+`set_value`; and once every call has returned, ready ⇔ count = 0. -/
+theorem latch_exact {s : State} (hr : Reach s) (hl : s.latch = true) :
+    (s.constructs ≤ 1 ∧ s.seals ≤ 1) ∧
+    (s.head = none → s.count = 0) ∧
+    (s.count = 0 → s.firer.isSome = true) ∧
+    (∀ t, inSet (s.pc t) = true → s.firer = some t) ∧
+    ((∀ t, s.pc t = .idle) → (s.count = 0 ↔ s.head = none) ∧ (s.count = 0 → s.setDone = true ∧ s.storage = some latchValue)) := by
+  have hP := InvP.reach hr
+  have hS := InvS.reach hr
+  have hL := InvL.reach hr
+  have hsealed : s.head = none → s.count = 0 := fun hh => by
+    have hs := hS.head_none.mp hh
+    have hc : s.constructs ≠ 0 := by have := hS.seals_le; omega
+    have hf : s.firer ≠ none := fun hn => hc (hS.none_fired hn)
+    exact hP.fired hl (by cases hfu : s.firer <;> simp_all)
+  refine ⟨⟨hS.cons_le, Nat.le_trans hS.seals_le hS.cons_le⟩, hsealed, hP.zero hl, hP.owner, ?_⟩
+  intro hidle
+  have hdone : s.count = 0 → s.setDone = true := fun h0 => by
+    have := hP.zero hl h0
+    cases hfu : s.firer with
+    | none => simp [hfu] at this
+    | some u =>
+      rcases hL u hfu with hin | hd
+      · rw [hidle u] at hin; cases hin
+      · exact hd
+  refine ⟨⟨fun h0 => ?_, hsealed⟩, fun h0 => ⟨hdone h0, ?_⟩⟩
+  · exact hS.head_none.mpr (hS.xchg_seal (hS.done (hdone h0)).1)
+  · have hx := (hS.done (hdone h0)).1
+    have hc : s.constructs = 1 := by have := hS.xchg_seal hx; have := hS.cons_le; have := hS.seals_le; omega
+    rw [(hS.storage_some hc).1, hS.latch_val hl]
+
+/-! ## Non-vacuity: concrete reachable states satisfying the hypotheses above -/
+
+/-- callback 0 registered by thread 1 before the seal (run by the setter), callback 1 by thread 2 whose
+CAS loses to the sealing exchange (run inline), a getter (thread 3) that sleeps on the futex and is
+woken, `set_value(7)` by thread 0 -/
+def demoEvs : List Ev := [
+  .reg 1 0, .act 1 {}, .act 1 {}, .act 1 {},         -- on_finish(cb0): load, CAS ok, return
+  .reg 2 1, .act 2 {},                               -- on_finish(cb1): load (list still open)
+  .get 3, .act 3 {}, .act 3 {}, .act 3 {},           -- get: load, fetch_add, futex_wait (sleeps)
+  .set 0 7, .act 0 {}, .act 0 {}, .act 0 {},         -- set_value(7): ready check, construct, seal
+  .act 2 {}, .act 2 {}, .act 2 {},                   -- cb1: CAS fails on SEALED, run inline, return
+  .act 0 {}, .act 0 {woken := 1},                    -- exchange READY, wake_all
+  .act 3 {}, .act 3 {}, .act 3 {},                   -- getter: woken, load READY, return the value
+  .act 0 {}, .act 0 {}]                              -- run cb0, return
+def demo : Option State := runEvs (State.init none) demoEvs
+theorem demo_some : demo.isSome = true := by decide
+
+example : let s := demo.get demo_some
+    Reach s ∧ NoWrap s ∧ s.setDone = true ∧ s.regDone 0 = true ∧ s.regDone 1 = true ∧
+    s.runs 0 = [some 7] ∧ s.runs 1 = [some 7] ∧ s.result 3 = some (.got (some 7)) ∧ s.adds = 1 := by
+  refine ⟨runEvs_reach (init_reach none (by simp)) demoEvs (Option.some_get demo_some).symm, ?_, ?_⟩
+  · unfold NoWrap; decide
+  · decide
+
+/-- a latch with count 3: `count_down(1)` by thread 1, `count_down(2)` by thread 2 fires; thread 3 polls
+`wait_for(5)` across a clock tick of 10 ns before that (returns false), then `ready()` afterwards -/
+def latchEvs : List Ev := [
+  .waitFor 3 5, .act 3 {}, .act 3 {}, .act 3 {}, .act 3 {},   -- load, clock, fetch_add, futex_wait (sleeps)
+  .tick 10, .act 3 {}, .act 3 {}, .act 3 {}, .act 3 {},       -- timeout, load, clock, return false
+  .down 1 1, .act 1 {}, .act 1 {},                            -- 3 → 2
+  .down 2 2, .act 2 {},                                       -- 2 → 0: this thread sets the promise
+  .act 2 {}, .act 2 {}, .act 2 {}, .act 2 {}, .act 2 {}, .act 2 {},
+  .ready 3, .act 3 {}, .act 3 {}]
+def latchDemo : Option State := runEvs (State.init (some 3)) latchEvs
+theorem latchDemo_some : latchDemo.isSome = true := by decide
+
+example : let s := latchDemo.get latchDemo_some
+    Reach s ∧ s.latch = true ∧ s.count = 0 ∧ s.setDone = true ∧ s.firer = some 2 ∧
+    s.result 3 = some (.ready true) ∧ (∀ t < 8, s.pc t = .idle) := by
+  refine ⟨runEvs_reach (init_reach (some 3) (by simp)) latchEvs (Option.some_get latchDemo_some).symm, ?_⟩
+  decide
+
+/-- the state right after the timed-out `wait_for(5)` of that run: `false`, 10 ns ≥ 0 + 5 elapsed -/
+theorem latchDemo10_some : (runEvs (State.init (some 3)) (latchEvs.take 10)).isSome = true := by decide
+example : ∃ s, Reach s ∧ s.result 3 = some (.waited false true 0 5 10) :=
+  ⟨(runEvs (State.init (some 3)) (latchEvs.take 10)).get latchDemo10_some,
+    runEvs_reach (init_reach (some 3) (by simp)) _ (Option.some_get latchDemo10_some).symm, by decide⟩
+
